@@ -456,6 +456,10 @@ Definition dispatch_c15 (tag : N) (a : LL) : LL :=
             | [] => [[1]]
             | bad => [0 :: bad]
             end
+  (* the deadlines of the bound state for [lease; t1; t2] (ns), as offsets from the instant of binding *)
+  | 1503 => let l := {| li_yiaddr := 0; li_sid := 0; li_mask := None; li_routers := []; li_dns := []; li_domain := []; li_mtu := 0;
+                        li_lease := Z.of_N (argn a 0 0); li_t1 := Z.of_N (argn a 0 1); li_t2 := Z.of_N (argn a 0 2) |} in
+            let '(t1, t2, tx) := deadlines 0 l in [[zn t1; zn t2; zn tx]]
   | 1502 => [map zn (delays (Z.of_N gf_retx_first_ns) (map Z.of_N (arg a 0)))]
   | _ => [[99]]
   end.
